@@ -293,6 +293,50 @@ def r04_6(chk, facts):
                          'many words out of the old, smaller block' % (fn['n'], sn.line), None, fn['q'])
     chk.require(n >= 1, 'R04.6: no function of the bigint storage grows and sets its length')
 
+def r04_7(chk, facts):
+    """A character is a digit if it is between '0' and '9' - in its own type."""
+    chk.rule('R04.7', 'digit tests of the integer readers: no reader decides "is a digit" from a difference `c - \'0\'` that was first narrowed to '
+                      '8 bits (`uint8_t(c - \'0\') <= 9`) when c has a character type wider than char (wchar_t or the CharT of the template): '
+                      'every code point congruent to a digit modulo 256 (U+0130, U+0131 ...) would be read as that digit; the digit value may be '
+                      'narrowed after a range test on the character itself', floor=2)
+    n = 0; seen = set()
+    def wide(t):
+        return any(w in t for w in ('wchar_t', 'char16_t', 'char32_t', 'type-parameter', 'CharT', 'char_type', 'dependent'))
+    for fn in sorted(facts.functions, key=lambda f: bool(f.get('dep'))):
+        if fn.get('body') is None or not fn['file'].endswith('utility/read_number.hpp'): continue
+        for x in A.walk_no_lambda(fn['body']):
+            if x.get('k') != 'BinaryOperator' or x.get('op') not in ('<=', '<', '>', '>='): continue
+            for side, other in ((x.get('lhs'), x.get('rhs')), (x.get('rhs'), x.get('lhs'))):
+                if A.const(other) not in (9, 10): continue
+                # a narrowing cast of (something - '0') anywhere in the compared expression (possibly through an assignment)
+                for y in A.walk(side):
+                    if y.get('k') not in A.EXPLICIT_CASTS: continue
+                    ct = fn['_types'][y['t'] - 1] if y.get('t') else ''
+                    if not any(w in ct for w in ('unsigned char', 'uint8_t', 'char')) or wide(ct): continue
+                    sub = A.strip(y.get('sub'), casts=True)
+                    if sub is None or sub.get('k') != 'BinaryOperator' or sub.get('op') != '-' or A.const(sub.get('rhs')) != 48: continue
+                    opnd = A.strip(sub.get('lhs'))
+                    ot = fn['_types'][opnd['t'] - 1] if opnd is not None and opnd.get('t') else ''
+                    inner = A.strip(sub.get('lhs'), casts=True)
+                    it = fn['_types'][inner['t'] - 1] if inner is not None and inner.get('t') else ot
+                    key = (fn['file'], x.get('l'), wide(it) or wide(ot))
+                    if key in seen: continue
+                    seen.add(key); n += 1
+                    site = U.site(fn, 'digit test at line %s (%s)' % (x.get('l'), (it or ot)[:20]))
+                    if wide(it) or wide(ot):
+                        chk.analysed(fn)
+                        chk.fail('R04.7', site, fn['file'], x.get('l'), '%s tests `%s`: the difference of a `%s` character is narrowed to 8 bits before the range test, so every code point '
+                                 'congruent to a digit modulo 256 is accepted as that digit' % (fn['n'], A.text(x)[:60], (it or ot)[:30]), None, fn['q'])
+                    else: chk.ok('R04.7', site, None)
+    # readers that test the character itself: is_digit(c) calls on the scanned character
+    for fn in sorted(facts.functions, key=lambda f: bool(f.get('dep'))):
+        if fn.get('body') is None or not fn['file'].endswith('utility/read_number.hpp') or fn['n'] not in ('dec_to_integer', 'to_integer', 'hex_to_integer'): continue
+        for c in A.calls_in(fn['body'], no_lambda=True):
+            if A.callee_name(c) in ('is_digit', 'is_nonzero_digit') and (fn['file'], c.get('l'), 'call') not in seen:
+                seen.add((fn['file'], c.get('l'), 'call')); n += 1
+                chk.ok('R04.7', U.site(fn, 'is_digit at line %s' % c.get('l')), None)
+    chk.require(n >= 2, 'R04.7: no digit tests found in read_number.hpp')
+
 def r04_5(chk, facts):
     """bigint storage views: a view taken before resize()/reserve() is refreshed before it is used again."""
     chk.rule('R04.5', 'bigint view freshness: a local holding get_storage_view() of *this is not read after a resize()/reserve() of *this '
@@ -351,6 +395,7 @@ def run(chk, tier, only_rule=None):
     r04_4(chk, facts)
     r04_5(chk, facts)
     r04_6(chk, facts)
+    r04_7(chk, facts)
     from . import c01
     c01.r01_7(chk, facts)
     c05.r05_1(chk, facts)
